@@ -36,7 +36,7 @@ ApcI(d)        == [t |-> "apc", d |-> d]
 
 Init0 == [st |-> "ground", inter |-> <<>>, pbuf |-> <<>>, osc |-> <<>>,
           dcs |-> [i |-> <<>>, p |-> <<>>, f |-> 0, d |-> <<>>], apc |-> <<>>,
-          sup |-> "no", out |-> <<>>]
+          sup |-> "no", lone |-> FALSE, out |-> <<>>]
 
 Emit(p, it) == [p EXCEPT !.out = Append(@, it)]
 
@@ -201,7 +201,12 @@ Osc(p, x) ==
 (* "anywhere" transitions, then the current state's function.                *)
 (* A DCS cancelled by a non-ASCII scalar in its header is outside every      *)
 (* standard: from "unconstrained" nothing is prescribed until CAN/SUB/ESC.   *)
-Feed(p, x) ==
+(* Gap: the pseudo-symbol "silence longer than the Escape-key delay".  Only  *)
+(* a lone ESC (nothing received since it) is affected: it is reported as the *)
+(* Escape key and parsing resumes from ground (C08).                         *)
+Gap == -3
+
+Feed0(p, x) ==
   IF x = 24 \/ x = 26 THEN [To(Emit(Exit(p), C0I(x)), "ground") EXCEPT !.sup = "no"]
   ELSE IF x = 27 THEN
      LET q0 == Exit(p)
@@ -230,6 +235,12 @@ Feed(p, x) ==
          [] p.st = "apc"       -> Apc(p, x)
          [] p.st = "osc"       -> Osc(p, x)
          [] p.st = "unconstrained" -> p
+
+Feed(p, x) ==
+  IF x = Gap THEN (IF p.st = "escape" /\ p.lone
+                   THEN [Emit(p, C0I(27)) EXCEPT !.st = "ground", !.sup = "no", !.lone = FALSE]
+                   ELSE p)
+  ELSE [Feed0(p, x) EXCEPT !.lone = (x = 27)]
 
 (* End of input: a pending string is unterminated; whether its handler is    *)
 (* "finished neatly" is not prescribed, so its item is optional.             *)
